@@ -522,7 +522,7 @@ func init() {
 	mc.Register(&mc.Check{
 		ID:    "C17",
 		Level: "exploration",
-		Rule: "E1 exhaustive: (d) a directory as source path is an error, through ReadAll and through LoadFile; (c) two 10 KiB texts through a named pipe written 1, 7, 4095, 4096, 4097, 5000 bytes at a time and at once, and as a file that holds its first 0, 1, 4095, 4096, 4097, 8192, 9000 bytes when the stream is made and is complete when it is read; every string of 1..3 characters of (a) through a named pipe written 1, 2, 3, 5 bytes at a time and at once, and as a file completed after the stream was made (every byte offset); (a3) 1..3 full read blocks followed by every incomplete head of a 2-, 3- or 4-byte character (the head is alone in the last read): rejected, never dropped; (a2) runs of N characters of one width (1, 2, 3, 4 bytes) with N x width within 3 characters of one and of two read blocks, behind 0..4 bytes of padding, decoded and run as a program (the run inside a comment, a statement after it); (a) every string of <= L characters over {a, é, 你, 😀, U+FFFD, U+FEFF} (L=4 quick, 5 thorough): unpadded through FileStream.ReadAll and ByteStream.ReadAll; padded with ASCII (before the character, and at file start) so that byte offset k of each character (k = 0..len, internal ones are the non-trivial cases) lies on block boundary 4096 and on 8192, through FileStream.ReadAll; unpadded through FileStream.Read(n) and ByteStream.Read(n) repeated to exhaustion for every constant n in 1..9 and every alternating pair (n1,n2) in 1..5 x 1..5. " +
+		Rule: "E1 exhaustive: (f) a program with a CJK comment line that makes the file T bytes long, for every T within 8 bytes of 1 MiB and for 64 KiB + 1, 256 KiB + 1, 2 MiB + 1, 4 MiB + 5, run through LoadFile like the decoded text; (d) a directory as source path is an error, through ReadAll and through LoadFile; (c) two 10 KiB texts through a named pipe written 1, 7, 4095, 4096, 4097, 5000 bytes at a time and at once, and as a file that holds its first 0, 1, 4095, 4096, 4097, 8192, 9000 bytes when the stream is made and is complete when it is read; every string of 1..3 characters of (a) through a named pipe written 1, 2, 3, 5 bytes at a time and at once, and as a file completed after the stream was made (every byte offset); (a3) 1..3 full read blocks followed by every incomplete head of a 2-, 3- or 4-byte character (the head is alone in the last read): rejected, never dropped; (a2) runs of N characters of one width (1, 2, 3, 4 bytes) with N x width within 3 characters of one and of two read blocks, behind 0..4 bytes of padding, decoded and run as a program (the run inside a comment, a statement after it); (a) every string of <= L characters over {a, é, 你, 😀, U+FFFD, U+FEFF} (L=4 quick, 5 thorough): unpadded through FileStream.ReadAll and ByteStream.ReadAll; padded with ASCII (before the character, and at file start) so that byte offset k of each character (k = 0..len, internal ones are the non-trivial cases) lies on block boundary 4096 and on 8192, through FileStream.ReadAll; unpadded through FileStream.Read(n) and ByteStream.Read(n) repeated to exhaustion for every constant n in 1..9 and every alternating pair (n1,n2) in 1..5 x 1..5. " +
 			"(b) every byte string of length <= 2 over all 256 values and of length 3 over 24 structural bytes (thorough: length 3 over all 256 values in the middle position, length 4 over the 24) inserted into a small ASCII+CJK host at start / middle / after the 1st and 2nd byte of a CJK character / end (FileStream.ReadAll and ByteStream.ReadAll) and into a 4.2 KiB host at every split of the string across block boundary 4096 (FileStream.ReadAll); every single-byte substitution (255 values x every offset) of a 60-byte sample with 1-4-byte characters, plain and with the substituted byte at offsets 4095 and 4096; GBK encodings of 4 sample programs alone and after a valid UTF-8 first line. " +
 			"(c) end to end through Interpreter.LoadFile(...).Execute: three small programs with every single byte, every pair of structural bytes and U+FFFD / U+FEFF / é / 😀 inserted at every byte offset, and every single-byte substitution; a > 4 KiB program with every single byte inserted in its second read block; plus the GBK files. " +
 			"Oracle: utf8.Valid => exactly []rune(string(bytes)) minus one leading U+FEFF and no error (end to end: same outcome as executing that text through LoadScript); not valid => a non-nil error (end to end: an error and no 显示 executed). (string, position, stream, n) tuples are distinct by construction (a few files coincide where inserted bytes equal neighbouring host bytes); a case is non-trivial if the input is not valid UTF-8, or contains U+FFFD / U+FEFF, or a multi-byte character is split by a block / Read(n) boundary.",
@@ -1025,6 +1025,24 @@ func c17Run(c *mc.Ctx) {
 		}
 		c.Bound("c_e2e_second_block", "complete: every single byte and the valid multi-byte insertions")
 	}
+	// ---- (f) big sources: a program whose comment line makes the file T bytes long, for T around
+	// 64 KiB, 256 KiB, 1 MiB (every T within 8 bytes of it), 2 MiB and 4 MiB: run like the decoded text
+	bigHead, bigTail := "令甲 = 1\n注：", "\n甲 = 2\n输出甲"
+	var bigT []int
+	for d := -8; d <= 8; d++ {
+		bigT = append(bigT, 1<<20+d)
+	}
+	bigT = append(bigT, 1<<16+1, 1<<18+1, 2<<20+1, 4<<20+5)
+	for _, T := range bigT {
+		if !unit() {
+			continue
+		}
+		fill := T - len(bigHead) - len(bigTail)
+		cur = c17Case{Part: "e2e", Stream: "file", Where: fmt.Sprintf("program with a comment line that makes the file %d bytes long", T),
+			Segs: c17Segs(c17T(bigHead), c17Pad(fill%3), c17R("说", fill/3), c17T(bigTail))}
+		run("f_big_source_e2e", true)
+	}
+	c.Bound("f_big_sources", fmt.Sprintf("%d sizes up to 4 MiB", len(bigT)))
 	for _, g := range c17GBK {
 		if !unit() {
 			continue
